@@ -82,6 +82,7 @@ package service
 //@   opt go:tSpawn ghost(clk) + 1
 //@   opt go:clk ghost(clk) + 1
 //@   ensures [latch_consulted] err == nil && ghost(tSpawn) > 0 ==> ghost(tCheck) > ghost(tSpawn) && ghost(tCheck) > ghost(tJoin)
+//@   ensures [all_dispatched] err == nil ==> ghost(it_done)
 //@   loop 0: invariant ec != nil
 //@   loop 0: invariant ghost(clk) >= 0
 //@   loop 0: invariant ghost(tSpawn) <= ghost(clk)
@@ -134,7 +135,7 @@ package service
 //@   opt protect tp.tim, tp.group, all(timestampRange.min), all(timestampRange.max)
 //@   opt protect-local txs[*]
 //@   opt go-ignore
-//@   requires tp != nil && tp.tim != nil && wc != nil && tsSane(int64(wc_bts(wc)), int64(wc_txth(wc)))
+//@   requires tp != nil && tp.tim != nil && wc != nil && tsSane(int64(wc_bts(wc)), int64(wc_txth(wc))) && !ghost(pv_last_ok)
 //@   ensures [checked] len(txs) > 0 ==> (forall i int :: {txs[i]} 0 <= i && i < len(txs) ==> txs[i] != nil && !tim_recent(tp.tim, tx_idstr(txs[i])) && ghost(pv_ok)[txs[i]])
 //@   ensures [window] len(txs) > 0 && tp.group == module.TransactionGroupNormal ==> (forall i int :: {txs[i]} 0 <= i && i < len(txs) ==> inWindow(int64(wc_bts(wc)) - ((int64(wc_txth(wc)) == 0) ? ConfigTXTimestampThresholdDefault : int64(wc_txth(wc))), int64(wc_bts(wc)) + ((int64(wc_txth(wc)) == 0) ? ConfigTXTimestampThresholdDefault : int64(wc_txth(wc))), int64(tx_ts(txs[i]))))
 //@   ensures [count] len(txs) <= (maxCount <= 0 ? 1500 : maxCount)
@@ -143,12 +144,26 @@ package service
 //@   loop 0: invariant forall i int :: {txs[i]} 0 <= i && i < len(txs) ==> txs[i] != nil && inWindow(as(ptr_timestampRange, tsr).min, as(ptr_timestampRange, tsr).max, int64(tx_ts(txs[i])))
 //@   loop 0: invariant forall i int :: {txs[i]} 0 <= i && i < len(txs) ==> !tim_recent(tp.tim, tx_idstr(txs[i]))
 //@   loop 0: invariant forall i int :: {txs[i]} 0 <= i && i < len(txs) ==> ghost(pv_ok)[txs[i]]
+//@   loop 0: invariant ghost(pv_last_ok) ==> len(txs) > 0 && txs[len(txs) - 1] == ghost(pv_last)
 
 // ---------------------------------------------------------------------------
 // C15: the block's gathered fee is added to the treasury's CURRENT balance: the balance is read after
 // the transactions ran (nothing that may touch the ledger lies between the read and the write)
 // ---------------------------------------------------------------------------
-//@ property C15
+// C10: a failure of executing a transaction list is what doExecute reports - the error of that very
+// call, not an older (possibly nil) variable (etx_err / etx_n: the error of the last executeTxs call
+// and the number of such calls)
+//@ smt all (declare-ghost etx_err Iface)
+//@ smt all (declare-ghost etx_n Int)
+//@ func (t *transition) executeTxs(l, ctx, rctBuf) (err)
+//@   trusted
+//@   modifies *
+//@   opt ghost:etx_err err
+//@   opt ghost:etx_n ghost(etx_n) + 1
+//@ func (t *transition) reportExecution(e) (ok)
+//@   trusted
+//@   modifies *
+//@ property C15 C10
 //@ func (t *transition) doExecute(alreadyValidated)
 //@   arith int
 //@   nosafety
@@ -159,6 +174,7 @@ package service
 //@   opt volatile bal, bal_stale
 //@   requires t != nil
 //@   callpre SetBalance: !ghost(bal_stale) && big(v) == ghost(bal)[a] + big(gatheredFee)
+//@   callpre reportExecution#6: e == ghost(etx_err) && e != nil
 //@   loop 0: invariant true
 //@   loop 1: invariant true
 
